@@ -1140,6 +1140,562 @@ example : Spec.Dev.pintBody (OttoVerif.Str.ofString "-12abc") 0 = [] := by decid
 example : Spec.parseIntBody (OttoVerif.Str.ofString "-12abc") 0 = ofInt (-12) := by decide +kernel
 example : Spec.parseIntBody (OttoVerif.Str.ofString "zz") 36 = ofInt 1295 := by decide +kernel
 
+/-! ## ToNumber on strings (§9.3.1): decimal literals -/
+
+section ToNumber
+open OttoVerif.GoStd OttoVerif.Str
+
+/-- bytes of the numeric alphabet: ASCII and not ES5/otto white space -/
+def Plain (c : Nat) : Prop := 33 ≤ c ∧ c < 127
+
+theorem decodeRune_ascii (c : Nat) (r : List Nat) (h : c < 128) : decodeRune (c :: r) = some (c, 1) := by
+  simp [decodeRune, h]
+
+theorem plain_not_ws (c : Nat) (h : Plain c) : OttoVerif.PN.wsRunes.contains c = false := by
+  unfold Plain at h
+  simp [OttoVerif.PN.wsRunes]
+  omega
+
+theorem trimLeft_plain (c : Nat) (r : List Nat) (h : Plain c) (fuel : Nat) :
+    trimLeftRunes OttoVerif.PN.wsRunes (fuel + 1) (c :: r) = c :: r := by
+  simp only [trimLeftRunes, decodeRune_ascii c r (by unfold Plain at h; omega), plain_not_ws c h]
+  simp
+
+theorem segments_plain (bs : List Nat) (h : ∀ c ∈ bs, Plain c) (fuel : Nat) (hf : bs.length ≤ fuel) :
+    segments fuel bs = bs.map (fun c => (c, 1)) := by
+  induction bs generalizing fuel with
+  | nil => cases fuel <;> simp [segments, decodeRune]
+  | cons c r ih =>
+    obtain ⟨k, rfl⟩ : ∃ k, fuel = k + 1 := ⟨fuel - 1, by simp at hf; omega⟩
+    have hc := h c (by simp)
+    have hr : ∀ x ∈ r, Plain x := fun x hx => h x (by simp [hx])
+    simp only [segments, decodeRune_ascii c r (by unfold Plain at hc; omega)]
+    simp [ih hr k (by simp at hf; omega)]
+
+theorem foldl_widths (l : List Nat) (n : Nat) :
+    (l.map (fun c => (c, 1))).foldl (fun n (p : Nat × Nat) => n + p.2) n = n + l.length := by
+  induction l generalizing n with
+  | nil => simp
+  | cons a t ih => simp [ih]; omega
+
+/-- strings.Trim with otto's white-space cut set leaves a string of plain ASCII bytes alone -/
+theorem trim_plain (bs : List Nat) (h : ∀ c ∈ bs, Plain c) : trim OttoVerif.PN.wsRunes bs = bs := by
+  cases bs with
+  | nil => simp [trim, trimLeftRunes, trimRightRunes, segments]
+  | cons c r =>
+    have hc := h c (by simp)
+    have hl : trimLeftRunes OttoVerif.PN.wsRunes (c :: r).length (c :: r) = c :: r := by
+      simpa using trimLeft_plain c r hc r.length
+    simp only [trim, hl, trimRightRunes, segments_plain (c :: r) h _ (Nat.le_refl _)]
+    -- the last segment is not in the cut set
+    have hdw : ((List.map (fun c => (c, 1)) (c :: r)).reverse.dropWhile
+        (fun p => OttoVerif.PN.wsRunes.contains p.1)) = (List.map (fun c => (c, 1)) (c :: r)).reverse := by
+      cases hrev : (List.map (fun c => (c, 1)) (c :: r)).reverse with
+      | nil => rfl
+      | cons p t =>
+        have hp : p ∈ (List.map (fun c => (c, 1)) (c :: r)) := by
+          have : p ∈ (List.map (fun c => (c, 1)) (c :: r)).reverse := by rw [hrev]; simp
+          exact List.mem_reverse.mp this
+        obtain ⟨x, hx, rfl⟩ := List.mem_map.mp hp
+        have hnw := plain_not_ws x (h x hx)
+        simp only [List.contains_eq_mem] at hnw
+        simp [List.dropWhile, hnw]
+    rw [hdw, List.reverse_reverse, foldl_widths]
+    simp
+
+
+theorem decodeRunesAux_plain (bs : List Nat) (h : ∀ c ∈ bs, Plain c) (fuel : Nat) (hf : bs.length ≤ fuel) :
+    decodeRunesAux fuel bs = bs := by
+  induction bs generalizing fuel with
+  | nil => cases fuel <;> simp [decodeRunesAux, decodeRune]
+  | cons c r ih =>
+    obtain ⟨k, rfl⟩ : ∃ k, fuel = k + 1 := ⟨fuel - 1, by simp at hf; omega⟩
+    have hc := h c (by simp)
+    have hr : ∀ x ∈ r, Plain x := fun x hx => h x (by simp [hx])
+    simp only [decodeRunesAux, decodeRune_ascii c r (by unfold Plain at hc; omega)]
+    simp [ih hr k (by simp at hf; omega)]
+
+theorem runes_plain (bs : List Nat) (h : ∀ c ∈ bs, Plain c) : Spec.runes bs = bs :=
+  decodeRunesAux_plain bs h _ (Nat.le_refl _)
+
+theorem plain_not_white (c : Nat) (h : Plain c) : Spec.isWhite c = false := by
+  unfold Plain at h
+  simp [Spec.isWhite]
+  omega
+
+theorem dropWhile_white_plain (bs : List Nat) (h : ∀ c ∈ bs, Plain c) : bs.dropWhile Spec.isWhite = bs := by
+  cases bs with
+  | nil => rfl
+  | cons c r => simp [List.dropWhile, plain_not_white c (h c (by simp))]
+
+theorem stripBoth_plain (bs : List Nat) (h : ∀ c ∈ bs, Plain c) : Spec.stripBoth (Spec.runes bs) = bs := by
+  rw [runes_plain bs h]
+  simp only [Spec.stripBoth, Spec.stripLeft, dropWhile_white_plain bs h]
+  rw [dropWhile_white_plain bs.reverse (fun c hc => h c (List.mem_reverse.mp hc)), List.reverse_reverse]
+
+
+def IsDig (c : Nat) : Prop := 48 ≤ c ∧ c ≤ 57
+
+theorem isDigit_of (c : Nat) (h : IsDig c) : GoStd.isDigit c = true := by
+  unfold IsDig at h; simp [GoStd.isDigit]; omega
+
+/-- strconv readFloat's mantissa loop over a run of decimal digits -/
+theorem mloop_digits (ds rest : List Nat) (hds : ∀ c ∈ ds, IsDig c) (fuel i mant frac : Nat) (sawdot sawdig us : Bool) :
+    readFloat.mloop false 10 (ds.length + fuel) (ds ++ rest) i mant frac sawdot sawdig us
+      = readFloat.mloop false 10 fuel rest (i + ds.length) (ds.foldl (fun n c => n * 10 + (c - 48)) mant)
+          (if sawdot then frac + ds.length else frac) sawdot (sawdig || !ds.isEmpty) us := by
+  induction ds generalizing i mant frac sawdig with
+  | nil => simp
+  | cons c r ih =>
+    have hc := hds c (by simp)
+    have hr : ∀ x ∈ r, IsDig x := fun x hx => hds x (by simp [hx])
+    have e95 : ch '_' = 95 := by decide
+    have e46 : ch '.' = 46 := by decide
+    have h95 : ¬ (c = 95) := by unfold IsDig at hc; omega
+    have h46 : ¬ (c = 46) := by unfold IsDig at hc; omega
+    have hl : (c :: r).length + fuel = (r.length + fuel) + 1 := by simp; omega
+    rw [hl]
+    simp only [List.cons_append, readFloat.mloop, e95, e46, h95, h46, if_false, isDigit_of c hc, if_true]
+    rw [ih hr]
+    have e1 : i + 1 + r.length = i + (c :: r).length := by simp; omega
+    have e2 : frac + 1 + r.length = frac + (c :: r).length := by simp; omega
+    rw [e1]
+    cases sawdot <;> simp [e2]
+
+theorem mloop_nil (fuel i mant frac : Nat) (sawdot sawdig us : Bool) :
+    readFloat.mloop false 10 fuel [] i mant frac sawdot sawdig us = ([], i, mant, frac, sawdig, us) := by
+  cases fuel <;> simp [readFloat.mloop]
+
+theorem mloop_dot (rest : List Nat) (fuel i mant frac : Nat) (sawdig us : Bool) :
+    readFloat.mloop false 10 (fuel + 1) (46 :: rest) i mant frac false sawdig us
+      = readFloat.mloop false 10 fuel rest (i + 1) mant frac true sawdig us := by
+  have e95 : ch '_' = 95 := by decide
+  have e46 : ch '.' = 46 := by decide
+  simp [readFloat.mloop, e95, e46]
+
+
+def DecBody (c : Nat) : Prop := IsDig c ∨ c = 46
+
+theorem lower_ne_x (c : Nat) (h : DecBody c) : GoStd.lower c ≠ ch 'x' := by
+  have e : ch 'x' = 120 := by decide
+  rw [e]
+  unfold DecBody IsDig at h
+  have hc : c < 64 := by omega
+  have : ∀ d : Fin 64, GoStd.lower d.val ≠ 120 := by decide
+  exact this ⟨c, hc⟩
+
+theorem ch_plus : ch '+' = 43 := by decide
+theorem ch_minus : ch '-' = 45 := by decide
+
+theorem readFloat_unsigned (c : Nat) (tl : List Nat) (hall : ∀ x ∈ c :: tl, DecBody x) (mant frac : Nat)
+    (R : readFloat.mloop false 10 ((c :: tl).length + 1) (c :: tl) 0 0 0 false false false
+          = ([], (c :: tl).length, mant, frac, true, false)) :
+    readFloat (c :: tl) = some ⟨false, false, mant, frac, 0, (c :: tl).length⟩ := by
+  have hc := hall c (by simp)
+  have hp : ¬ (c = 43) := by unfold DecBody IsDig at hc; omega
+  have hm : ¬ (c = 45) := by unfold DecBody IsDig at hc; omega
+  unfold readFloat
+  simp only [List.isEmpty_cons, Bool.false_eq_true, if_false, ch_plus, ch_minus, hp, hm, List.drop_zero]
+  rcases tl with _ | ⟨b, _ | ⟨d, tl3⟩⟩
+  · simp only [Bool.false_eq_true, if_false, List.drop_zero, R]
+    simp
+  · simp only [Bool.false_eq_true, if_false, List.drop_zero, R]
+    simp
+  · have hb := lower_ne_x b (hall b (by simp))
+    simp only [hb, and_false, decide_false, Bool.false_eq_true, if_false, List.drop_zero, R]
+    simp
+
+
+theorem readFloat_signed (sg c : Nat) (tl : List Nat) (hsg : sg = 43 ∨ sg = 45)
+    (hall : ∀ x ∈ c :: tl, DecBody x) (mant frac : Nat)
+    (R : readFloat.mloop false 10 ((sg :: c :: tl).length + 1) (c :: tl) 1 0 0 false false false
+          = ([], (sg :: c :: tl).length, mant, frac, true, false)) :
+    readFloat (sg :: c :: tl) = some ⟨decide (sg = 45), false, mant, frac, 0, (sg :: c :: tl).length⟩ := by
+  unfold readFloat
+  rcases hsg with rfl | rfl
+  · simp only [List.isEmpty_cons, Bool.false_eq_true, if_false, ch_plus, ch_minus, if_true, List.drop_one, List.tail_cons]
+    rcases tl with _ | ⟨b, _ | ⟨d, tl3⟩⟩
+    · simp only [Bool.false_eq_true, if_false, List.drop_one, List.tail_cons, R]
+      simp
+    · simp only [Bool.false_eq_true, if_false, List.drop_one, List.tail_cons, R]
+      simp
+    · have hb := lower_ne_x b (hall b (by simp))
+      simp only [hb, and_false, decide_false, Bool.false_eq_true, if_false, List.drop_one, List.tail_cons, R]
+      simp
+  · have h4543 : ¬ ((45 : Nat) = 43) := by decide
+    simp only [List.isEmpty_cons, Bool.false_eq_true, if_false, ch_plus, ch_minus, h4543, if_true, List.drop_one, List.tail_cons]
+    rcases tl with _ | ⟨b, _ | ⟨d, tl3⟩⟩
+    · simp only [Bool.false_eq_true, if_false, List.drop_one, List.tail_cons, R]
+      simp
+    · simp only [Bool.false_eq_true, if_false, List.drop_one, List.tail_cons, R]
+      simp
+    · have hb := lower_ne_x b (hall b (by simp))
+      simp only [hb, and_false, decide_false, Bool.false_eq_true, if_false, List.drop_one, List.tail_cons, R]
+      simp
+
+
+/-- the text of an unsigned decimal without exponent: digits, optionally a point and more digits -/
+def decBody (ip fp : List Nat) (dot : Bool) : List Nat := ip ++ (if dot then 46 :: fp else [])
+
+theorem mloop_body (ip fp : List Nat) (dot : Bool) (hip : ∀ c ∈ ip, IsDig c) (hfp : ∀ c ∈ fp, IsDig c)
+    (hne : ip ≠ [] ∨ fp ≠ []) (hdot : dot = false → fp = []) (i k : Nat) :
+    readFloat.mloop false 10 ((decBody ip fp dot).length + k) (decBody ip fp dot) i 0 0 false false false
+      = ([], i + (decBody ip fp dot).length, (ip ++ fp).foldl (fun n c => n * 10 + (c - 48)) 0, fp.length, true, false) := by
+  cases dot with
+  | false =>
+    have hfp0 : fp = [] := hdot rfl
+    subst hfp0
+    have hipne : ip ≠ [] := by cases hne with | inl h => exact h | inr h => exact absurd rfl h
+    have hie : ip.isEmpty = false := by cases ip <;> simp_all
+    simp only [decBody, Bool.false_eq_true, if_false, List.append_nil]
+    have := mloop_digits ip [] hip k i 0 0 false false false
+    simp only [List.append_nil] at this
+    rw [this, mloop_nil]
+    simp [hie]
+  | true =>
+    simp only [decBody, if_true]
+    have hlen : (ip ++ 46 :: fp).length + k = ip.length + ((fp.length + k) + 1) := by simp; omega
+    rw [hlen, mloop_digits ip (46 :: fp) hip, mloop_dot]
+    simp only [Bool.false_eq_true, if_false]
+    have := mloop_digits fp [] hfp k (i + ip.length + 1) (ip.foldl (fun n c => n * 10 + (c - 48)) 0) 0 true
+      (false || !ip.isEmpty) false
+    simp only [List.append_nil] at this
+    rw [this, mloop_nil]
+    have hs : ((false || !ip.isEmpty) || !fp.isEmpty) = true := by
+      cases hne with
+      | inl h => cases ip <;> simp_all
+      | inr h => cases fp <;> simp_all
+    simp [hs, List.foldl_append]
+    exact ⟨by omega, hne⟩
+
+
+theorem spec_isDigit_of (c : Nat) (h : IsDig c) : Spec.isDigit c = true := by
+  unfold IsDig at h; simp [Spec.isDigit]; omega
+
+theorem takeWhile_digits (ip rest : List Nat) (hip : ∀ c ∈ ip, IsDig c)
+    (hrest : ∀ c t, rest = c :: t → Spec.isDigit c = false) :
+    (ip ++ rest).takeWhile Spec.isDigit = ip ∧ (ip ++ rest).dropWhile Spec.isDigit = rest := by
+  induction ip with
+  | nil =>
+    cases rest with
+    | nil => simp
+    | cons c t => simp [List.takeWhile, List.dropWhile, hrest c t rfl]
+  | cons a r ih =>
+    have ha := spec_isDigit_of a (hip a (by simp))
+    have hr : ∀ c ∈ r, IsDig c := fun c hc => hip c (by simp [hc])
+    simp [List.takeWhile, List.dropWhile, ha, ih hr]
+
+theorem unsignedDecPrefix_body (ip fp : List Nat) (dot : Bool) (hip : ∀ c ∈ ip, IsDig c) (hfp : ∀ c ∈ fp, IsDig c)
+    (hne : ip ≠ [] ∨ fp ≠ []) (hdot : dot = false → fp = []) :
+    ∃ d, Spec.unsignedDecPrefix (decBody ip fp dot) = some d ∧ d.inf = false ∧
+      d.mant = (ip ++ fp).foldl (fun n c => n * 10 + (c - 48)) 0 ∧ d.exp10 = 0 - (fp.length : Int) ∧ d.rest = [] := by
+  have hinf : sInfinity.isPrefixOf (decBody ip fp dot) = false := by
+    cases ip with
+    | nil =>
+      cases dot with
+      | false => simp [decBody, sInfinity]
+      | true => simp [decBody, sInfinity, List.isPrefixOf]
+    | cons a r =>
+      have ha := hip a (by simp)
+      unfold IsDig at ha
+      have : ¬ (73 = a) := by omega
+      simp [decBody, sInfinity, List.isPrefixOf, this]
+  cases dot with
+  | false =>
+    have hfp0 : fp = [] := hdot rfl
+    subst hfp0
+    have hipne : ip ≠ [] := by cases hne with | inl h => exact h | inr h => exact absurd rfl h
+    have hie : ip.isEmpty = false := by cases ip <;> simp_all
+    have htd := takeWhile_digits ip [] hip (by intro c t h; cases h)
+    simp only [List.append_nil] at htd
+    simp only [decBody, Bool.false_eq_true, if_false, List.append_nil] at hinf ⊢
+    refine ⟨⟨false, ip.foldl (fun n c => n * 10 + (c - 48)) 0, 0, []⟩, ?_, rfl, by simp, by simp, rfl⟩
+    simp [Spec.unsignedDecPrefix, hinf, htd.1, htd.2, hie, Spec.digitsVal]
+  | true =>
+    have h46 : Spec.isDigit 46 = false := by decide
+    have htd := takeWhile_digits ip (46 :: fp) hip (by intro c t h; cases h; exact h46)
+    have htf := takeWhile_digits fp [] hfp (by intro c t h; cases h)
+    simp only [List.append_nil] at htf
+    simp only [decBody, if_true] at hinf ⊢
+    have hboth : ¬ (ip.isEmpty = true ∧ fp.isEmpty = true) := by
+      intro ⟨h1, h2⟩
+      cases hne with
+      | inl h => exact h (List.isEmpty_iff.mp h1)
+      | inr h => exact h (List.isEmpty_iff.mp h2)
+    refine ⟨⟨false, (ip ++ fp).foldl (fun n c => n * 10 + (c - 48)) 0, 0 - (fp.length : Int), []⟩, ?_, rfl, rfl, rfl, rfl⟩
+    simp only [Spec.unsignedDecPrefix, hinf, Bool.false_eq_true, if_false, htd.1, htd.2, htf.1, htf.2, hboth,
+      Spec.digitsVal]
+
+
+theorem decBody_all (ip fp : List Nat) (dot : Bool) (hip : ∀ c ∈ ip, IsDig c) (hfp : ∀ c ∈ fp, IsDig c) :
+    ∀ x ∈ decBody ip fp dot, DecBody x := by
+  intro x hx
+  unfold decBody at hx
+  cases dot with
+  | false => simp at hx; exact Or.inl (hip x hx)
+  | true =>
+    simp at hx
+    rcases hx with h | h | h
+    · exact Or.inl (hip x h)
+    · exact Or.inr h
+    · exact Or.inl (hfp x h)
+
+theorem decBody_cons (ip fp : List Nat) (dot : Bool) (hne : ip ≠ [] ∨ fp ≠ []) (hdot : dot = false → fp = []) :
+    ∃ c tl, decBody ip fp dot = c :: tl := by
+  cases ip with
+  | cons a r => exact ⟨a, _, rfl⟩
+  | nil =>
+    cases dot with
+    | true => exact ⟨46, fp, rfl⟩
+    | false =>
+      have := hdot rfl
+      cases hne with
+      | inl h => exact absurd rfl h
+      | inr h => exact absurd this h
+
+theorem decBody_plain (x : Nat) (h : DecBody x) : Plain x := by
+  unfold DecBody IsDig at h; unfold Plain; omega
+
+/-- strconv `special` does not fire on a (signed) decimal body -/
+theorem special_unsigned (c : Nat) (tl : List Nat) (hc : DecBody c) : GoStd.special (c :: tl) = none := by
+  have e1 : ch '+' = 43 := by decide
+  have e2 : ch '-' = 45 := by decide
+  have e3 : ch 'i' = 105 := by decide
+  have e4 : ch 'I' = 73 := by decide
+  have e5 : ch 'n' = 110 := by decide
+  have e6 : ch 'N' = 78 := by decide
+  unfold DecBody IsDig at hc
+  have h1 : ¬ c = 43 := by omega
+  have h2 : ¬ c = 45 := by omega
+  have h3 : ¬ (c = 105 ∨ c = 73) := by omega
+  have h4 : ¬ (c = 110 ∨ c = 78) := by omega
+  simp [GoStd.special, e1, e2, e3, e4, e5, e6, h1, h2, h3, h4]
+
+theorem special_signed (sg c : Nat) (tl : List Nat) (hsg : sg = 43 ∨ sg = 45) (hc : DecBody c) :
+    GoStd.special (sg :: c :: tl) = none := by
+  have e1 : ch '+' = 43 := by decide
+  have e2 : ch '-' = 45 := by decide
+  unfold DecBody IsDig at hc
+  have hpl : prefixLenIgnoreCase (c :: tl) (Str.ofString "infinity") = 0 := by
+    have : Str.ofString "infinity" = [105, 110, 102, 105, 110, 105, 116, 121] := by decide +kernel
+    rw [this]
+    have hh : ¬ ((if 65 ≤ c ∧ c ≤ 90 then c + 32 else c) = 105) := by split <;> omega
+    simp [prefixLenIgnoreCase, hh]
+  rcases hsg with rfl | rfl
+  · simp [GoStd.special, e1, e2, hpl]
+  · simp [GoStd.special, e1, e2, hpl]
+
+
+/-- the double both sides compute for sign · mant · 10^(−frac) -/
+def decValue (neg : Bool) (mant frac : Nat) : FV :=
+  if mant = 0 then .fin neg 0 0
+  else if frac = 0 then ofRatParts neg (mant * 10 ^ 0) 1 else ofRatParts neg mant (10 ^ frac)
+
+theorem rfValue_dec (neg : Bool) (mant frac n : Nat) :
+    rfValue ⟨neg, false, mant, frac, 0, n⟩ = decValue neg mant frac := by
+  unfold rfValue decValue
+  by_cases hm : mant = 0
+  · simp [hm]
+  · by_cases hf : frac = 0
+    · subst hf; simp [hm]
+    · have h1 : ¬ ((0 : Int) - (frac : Int) ≥ 0) := by omega
+      have h2 : (-((0 : Int) - (frac : Int))).toNat = frac := by omega
+      simp only [hm, if_false, Bool.false_eq_true, h1, h2, hf]
+
+theorem mvRound_dec (neg : Bool) (mant frac : Nat) (hf : frac ≤ 400) :
+    Spec.mvRound neg mant (0 - (frac : Int)) = decValue neg mant frac := by
+  unfold Spec.mvRound decValue
+  by_cases hm : mant = 0
+  · simp [hm]
+  · by_cases hf0 : frac = 0
+    · subst hf0; simp [hm]
+    · have h1 : ¬ ((0 : Int) - (frac : Int) ≥ 0) := by omega
+      have h2 : (-((0 : Int) - (frac : Int))).toNat = frac := by omega
+      have h3 : ¬ (frac > (natDigits mant).length + 400) := by omega
+      simp only [hm, if_false, h1, h2, h3, hf0]
+
+/-- Model side: parseNumber on a signed decimal without exponent -/
+theorem parseNumber_decimal (sgn : List Nat) (hsg : sgn = [] ∨ sgn = [43] ∨ sgn = [45])
+    (ip fp : List Nat) (dot : Bool) (hip : ∀ c ∈ ip, IsDig c) (hfp : ∀ c ∈ fp, IsDig c)
+    (hne : ip ≠ [] ∨ fp ≠ []) (hdot : dot = false → fp = []) :
+    OttoVerif.PN.parseNumber (sgn ++ decBody ip fp dot)
+      = decValue (decide (sgn = [45])) ((ip ++ fp).foldl (fun n c => n * 10 + (c - 48)) 0) fp.length := by
+  have hall := decBody_all ip fp dot hip hfp
+  obtain ⟨c, tl, hb⟩ := decBody_cons ip fp dot hne hdot
+  have hR := fun i k => mloop_body ip fp dot hip hfp hne hdot i k
+  rw [hb] at hall hR ⊢
+  have hc := hall c (by simp)
+  have hcx : ¬ (c = 120 ∨ c = 88) := by unfold DecBody IsDig at hc; omega
+  rcases hsg with rfl | rfl | rfl
+  · -- unsigned
+    have hplain : ∀ x ∈ ([] ++ c :: tl), Plain x := by
+      intro x hx; exact decBody_plain x (hall x (by simpa using hx))
+    have hs0x : OttoVerif.PN.startsWith0x (c :: tl) = false := by
+      cases tl with
+      | nil => simp [OttoVerif.PN.startsWith0x]
+      | cons b t =>
+        have hb2 := hall b (by simp)
+        have : ¬ (b = 120 ∨ b = 88) := by unfold DecBody IsDig at hb2; omega
+        by_cases h48 : c = 48
+        · subst h48; simp [OttoVerif.PN.startsWith0x, this]
+        · unfold OttoVerif.PN.startsWith0x; split <;> simp_all
+    have hrf := readFloat_unsigned c tl hall ((ip ++ fp).foldl (fun n c => n * 10 + (c - 48)) 0) fp.length
+      (by have := hR 0 1; rw [Nat.zero_add] at this; exact this)
+    have hpf : GoStd.parseFloat (c :: tl) = some (decValue false ((ip ++ fp).foldl (fun n c => n * 10 + (c - 48)) 0) fp.length) := by
+      simp only [GoStd.parseFloat, special_unsigned c tl hc, hrf, if_true, rfValue_dec]
+    simp only [List.nil_append] at hplain ⊢
+    simp only [OttoVerif.PN.parseNumber, trim_plain _ hplain, List.isEmpty_cons, Bool.false_eq_true, if_false, hs0x,
+      OttoVerif.PN.pfOrNaN, hpf]
+    simp
+  · have hplain : ∀ x ∈ ([43] ++ c :: tl), Plain x := by
+      intro x hx
+      simp at hx
+      rcases hx with rfl | rfl | hx
+      · unfold Plain; omega
+      · exact decBody_plain _ hc
+      · exact decBody_plain x (hall x (by simp [hx]))
+    have hs0x : OttoVerif.PN.startsWith0x (43 :: c :: tl) = false := by simp [OttoVerif.PN.startsWith0x]
+    have hrf := readFloat_signed 43 c tl (Or.inl rfl) hall ((ip ++ fp).foldl (fun n c => n * 10 + (c - 48)) 0) fp.length
+      (by have := hR 1 2; rw [Nat.add_comm 1 (c :: tl).length] at this; exact this)
+    have hpf : GoStd.parseFloat (43 :: c :: tl) = some (decValue false ((ip ++ fp).foldl (fun n c => n * 10 + (c - 48)) 0) fp.length) := by
+      simp only [GoStd.parseFloat, special_signed 43 c tl (Or.inl rfl) hc, hrf, if_true, rfValue_dec]
+      simp
+    simp only [List.cons_append, List.nil_append] at hplain ⊢
+    simp only [OttoVerif.PN.parseNumber, trim_plain _ hplain, List.isEmpty_cons, Bool.false_eq_true, if_false, hs0x,
+      OttoVerif.PN.pfOrNaN, hpf]
+    simp
+  · have hplain : ∀ x ∈ ([45] ++ c :: tl), Plain x := by
+      intro x hx
+      simp at hx
+      rcases hx with rfl | rfl | hx
+      · unfold Plain; omega
+      · exact decBody_plain _ hc
+      · exact decBody_plain x (hall x (by simp [hx]))
+    have hs0x : OttoVerif.PN.startsWith0x (45 :: c :: tl) = false := by simp [OttoVerif.PN.startsWith0x]
+    have hrf := readFloat_signed 45 c tl (Or.inr rfl) hall ((ip ++ fp).foldl (fun n c => n * 10 + (c - 48)) 0) fp.length
+      (by have := hR 1 2; rw [Nat.add_comm 1 (c :: tl).length] at this; exact this)
+    have hpf : GoStd.parseFloat (45 :: c :: tl) = some (decValue true ((ip ++ fp).foldl (fun n c => n * 10 + (c - 48)) 0) fp.length) := by
+      simp only [GoStd.parseFloat, special_signed 45 c tl (Or.inr rfl) hc, hrf, if_true, rfValue_dec]
+      simp
+    simp only [List.cons_append, List.nil_append] at hplain ⊢
+    simp only [OttoVerif.PN.parseNumber, trim_plain _ hplain, List.isEmpty_cons, Bool.false_eq_true, if_false, hs0x,
+      OttoVerif.PN.pfOrNaN, hpf]
+    simp
+
+
+theorem strDecimalPrefix_nosign (c : Nat) (tl : List Nat) (h43 : ¬ c = 43) (h45 : ¬ c = 45) (d : Spec.DecLit)
+    (hd : Spec.unsignedDecPrefix (c :: tl) = some d) :
+    Spec.strDecimalPrefix (c :: tl) = some (if d.inf then .inf false else Spec.mvRound false d.mant d.exp10, d.rest) := by
+  unfold Spec.strDecimalPrefix
+  split
+  rename_i x neg body heq
+  split at heq
+  · rename_i t h; simp at h; exact absurd h.1 h43
+  · rename_i t h; simp at h; exact absurd h.1 h45
+  · simp at heq
+    obtain ⟨rfl, rfl⟩ := heq
+    simp [hd]
+
+theorem strDecimalPrefix_plus (body : List Nat) (d : Spec.DecLit)
+    (hd : Spec.unsignedDecPrefix body = some d) :
+    Spec.strDecimalPrefix (43 :: body) = some (if d.inf then .inf false else Spec.mvRound false d.mant d.exp10, d.rest) := by
+  unfold Spec.strDecimalPrefix
+  simp only [hd]
+
+theorem strDecimalPrefix_minus (body : List Nat) (d : Spec.DecLit)
+    (hd : Spec.unsignedDecPrefix body = some d) :
+    Spec.strDecimalPrefix (45 :: body) = some (if d.inf then .inf true else Spec.mvRound true d.mant d.exp10, d.rest) := by
+  unfold Spec.strDecimalPrefix
+  simp only [hd]
+
+theorem strDecimalPrefix_decimal (sgn : List Nat) (hsg : sgn = [] ∨ sgn = [43] ∨ sgn = [45])
+    (ip fp : List Nat) (dot : Bool) (hip : ∀ c ∈ ip, IsDig c) (hfp : ∀ c ∈ fp, IsDig c)
+    (hne : ip ≠ [] ∨ fp ≠ []) (hdot : dot = false → fp = []) (hfl : fp.length ≤ 400) :
+    Spec.strDecimalPrefix (sgn ++ decBody ip fp dot)
+      = some (decValue (decide (sgn = [45])) ((ip ++ fp).foldl (fun n c => n * 10 + (c - 48)) 0) fp.length, []) := by
+  obtain ⟨d, hd, hinf, hmant, hexp, hrest⟩ := unsignedDecPrefix_body ip fp dot hip hfp hne hdot
+  have hall := decBody_all ip fp dot hip hfp
+  obtain ⟨c, tl, hb⟩ := decBody_cons ip fp dot hne hdot
+  have hc : DecBody c := hall c (by rw [hb]; simp)
+  have hc43 : ¬ (c = 43) := by unfold DecBody IsDig at hc; omega
+  have hc45 : ¬ (c = 45) := by unfold DecBody IsDig at hc; omega
+  have hval : Spec.mvRound (decide (sgn = [45])) d.mant d.exp10
+      = decValue (decide (sgn = [45])) ((ip ++ fp).foldl (fun n c => n * 10 + (c - 48)) 0) fp.length := by
+    rw [hmant, hexp]; exact mvRound_dec _ _ _ hfl
+  rcases hsg with rfl | rfl | rfl
+  · simp only [List.nil_append]
+    rw [hb] at hd ⊢
+    rw [strDecimalPrefix_nosign c tl hc43 hc45 d hd]
+    have : decide (([] : List Nat) = [45]) = false := by decide
+    rw [this] at hval
+    simp [hinf, hrest, hval]
+  · simp only [List.cons_append, List.nil_append]
+    rw [strDecimalPrefix_plus _ d hd]
+    have : decide (([43] : List Nat) = [45]) = false := by decide
+    rw [this] at hval
+    simp [hinf, hrest, hval]
+  · simp only [List.cons_append, List.nil_append]
+    rw [strDecimalPrefix_minus _ d hd]
+    have : decide (([45] : List Nat) = [45]) = true := by decide
+    rw [this] at hval
+    simp [hinf, hrest, hval]
+
+
+theorem specToNumber_of_prefix (rs : List Nat) (v : FV) (hplain : ∀ x ∈ rs, Plain x) (hne : rs ≠ [])
+    (hx : ∀ a b t, rs = a :: b :: t → ¬ (b = 120 ∨ b = 88))
+    (hp : Spec.strDecimalPrefix rs = some (v, [])) :
+    Spec.stringToNumber rs = v := by
+  unfold Spec.stringToNumber
+  rw [stripBoth_plain rs hplain]
+  have hie : rs.isEmpty = false := by cases rs <;> simp_all
+  simp only [hie, Bool.false_eq_true, if_false]
+  split
+  · rename_i x hs
+    have := hx 48 x hs rfl
+    simp only [this, if_false, hp]
+  · simp only [hp]
+
+/-- C06.toNumber_string_sound (decimal literals without exponent): for every sign, every digit
+    strings `ip`, `fp` (at most 400 fraction digits; not both empty; with or without the point),
+    otto's `parseNumber` (Trim + strconv.ParseFloat, modelled in Base) returns exactly the Number
+    value §9.3.1 assigns: the correctly rounded value of ±ip.fp (and ±0 for zero mantissas). -/
+theorem toNumber_decimal_sound (sgn : List Nat) (hsg : sgn = [] ∨ sgn = [43] ∨ sgn = [45])
+    (ip fp : List Nat) (dot : Bool) (hip : ∀ c ∈ ip, IsDig c) (hfp : ∀ c ∈ fp, IsDig c)
+    (hne : ip ≠ [] ∨ fp ≠ []) (hdot : dot = false → fp = []) (hfl : fp.length ≤ 400) :
+    stringToNumber (sgn ++ decBody ip fp dot) = Spec.stringToNumber (sgn ++ decBody ip fp dot) := by
+  have hm := parseNumber_decimal sgn hsg ip fp dot hip hfp hne hdot
+  have hsp := strDecimalPrefix_decimal sgn hsg ip fp dot hip hfp hne hdot hfl
+  have hall := decBody_all ip fp dot hip hfp
+  obtain ⟨c, tl, hb⟩ := decBody_cons ip fp dot hne hdot
+  have hplain : ∀ x ∈ sgn ++ decBody ip fp dot, Plain x := by
+    intro x hx
+    rcases List.mem_append.mp hx with h | h
+    · rcases hsg with rfl | rfl | rfl
+      · cases h
+      · simp at h; subst h; unfold Plain; omega
+      · simp at h; subst h; unfold Plain; omega
+    · exact decBody_plain x (hall x h)
+  have hnx : ∀ a b t, sgn ++ decBody ip fp dot = a :: b :: t → ¬ (b = 120 ∨ b = 88) := by
+    intro a b t h
+    have hbm : b ∈ decBody ip fp dot := by
+      rcases hsg with rfl | rfl | rfl
+      · simp only [List.nil_append] at h; rw [h]; simp
+      · rw [hb] at h ⊢; simp at h; rw [h.2.1]; simp
+      · rw [hb] at h ⊢; simp at h; rw [h.2.1]; simp
+    have := hall b hbm
+    unfold DecBody IsDig at this; omega
+  have hne' : sgn ++ decBody ip fp dot ≠ [] := by rw [hb]; simp
+  rw [specToNumber_of_prefix _ _ hplain hne' hnx hsp]
+  exact hm
+
+
+end ToNumber
+
+/-- `toNumber_decimal_sound` instances: "-12.50", ".5", "007" -/
+example : [45] ++ decBody [49, 50] [53, 48] true = OttoVerif.Str.ofString "-12.50" := by decide +kernel
+example : same (Spec.stringToNumber (OttoVerif.Str.ofString "-12.50")) (decode 0xc029000000000000) = true := by decide +kernel
+example : same (stringToNumber (OttoVerif.Str.ofString ".5")) (decode 0x3fe0000000000000) = true := by decide +kernel
+
 /-! ## non-vacuity of the layout theorem and witnesses of the deviation regions -/
 
 def fv (b : UInt64) : FV := decode b
